@@ -656,3 +656,174 @@ func appRelayDriver(a *Args) {
 	_ = sync.Mutex{}
 	_ = rand.Int
 }
+
+// ---------------------------------------------------------------------------------------------
+// C19 under concurrency: several clients and agent calls at once, store operations logged by the fake
+// App Engine API at their linearisation points (AppRelayTrace)
+// ---------------------------------------------------------------------------------------------
+
+func init() {
+	Drivers["apprelayc"] = appRelayConcurrentDriver
+}
+
+func appRelayConcurrentDriver(a *Args) {
+	res := a.Res
+	e := startAppEnv(res)
+	if e == nil {
+		return
+	}
+	defer e.stop()
+	rng := hx.Rand("apprelayc")
+	bs := []appBackend{
+		{ID: "cc-1", EndUser: "dave@example.com", BackendUser: "agent-c1@example.com", Prefixes: []string{"/"}, live: true},
+		{ID: "cc-2", EndUser: "erin@example.com", BackendUser: "agent-c2@example.com", Prefixes: []string{"/"}, live: true},
+	}
+	for _, b := range bs {
+		if st := e.addBackend(b); st != 200 {
+			res.Bad("add backend: %d", st)
+			return
+		}
+	}
+	rounds, perRound := 4, 6
+	if hx.Thorough() {
+		rounds, perRound = 30, 10
+	}
+	for round := 0; round < rounds; round++ {
+		for _, b := range bs {
+			e.setLastSeen(b.ID, time.Now())
+		}
+		hx.Reset(fmt.Sprintf("apprelayc-%d", round), "apprelay-concurrent")
+		e.ae.OnStore = func(op, kind, name string, completed bool, names []string) {
+			switch {
+			case op == "put" && strings.HasPrefix(kind, "req:"):
+				hx.Emit("DsPutReq", "r", name, "b", strings.Trim(strings.TrimPrefix(kind, "req:"), "\""), "completed", completed)
+			case op == "put" && kind == "response":
+				hx.Emit("RespVisible", "r", name, "via", "datastore")
+			case op == "mcset" && strings.HasPrefix(name, "resp:"):
+				// key = resp:"backend":"rid"
+				parts := strings.Split(name, "\"")
+				if len(parts) >= 4 {
+					hx.Emit("RespVisible", "r", parts[3], "via", "memcache")
+				}
+			case op == "query" && strings.HasPrefix(kind, "req:"):
+				if names == nil {
+					names = []string{}
+				}
+				hx.Emit("DsQueryPending", "b", strings.Trim(strings.TrimPrefix(kind, "req:"), "\""), "ids", names)
+			}
+		}
+		type cl struct {
+			rid string
+			ch  chan clientResult
+			b   appBackend
+		}
+		var clients []cl
+		var wg sync.WaitGroup
+		var mu sync.Mutex
+		// clients
+		for k := 0; k < perRound; k++ {
+			b := bs[rng.Intn(len(bs))]
+			size := []int{0, 10, 3000, 200000}[rng.Intn(4)]
+			rid := fmt.Sprintf("rid-c%d-%d-%d", os.Getpid(), round, k)
+			hx.Emit("Routed", "r", rid, "b", b.ID)
+			hx.Emit("ClientSent", "r", rid)
+			ch := make(chan clientResult, 1)
+			go func(rid string, b appBackend, size int) {
+				hdr := map[string]string{"X-Appengine-Request-Log-Id": rid, "X-AppEngine-User-Email": b.EndUser}
+				st, body, _, err := e.do(e.defPort, "POST", "/cc/"+rid, hdr, pattern(rid, size), 50*time.Second)
+				ch <- clientResult{st, body, err}
+			}(rid, b, size)
+			mu.Lock()
+			clients = append(clients, cl{rid, ch, b})
+			mu.Unlock()
+			if rng.Intn(3) == 0 {
+				time.Sleep(time.Duration(rng.Intn(4)) * time.Millisecond)
+			}
+		}
+		// one agent per backend: list, then fetch and respond to everything listed, concurrently
+		done := map[string]bool{}
+		var dmu sync.Mutex
+		for _, b := range bs {
+			wg.Add(1)
+			go func(b appBackend) {
+				defer wg.Done()
+				deadline := time.Now().Add(40 * time.Second)
+				for time.Now().Before(deadline) {
+					mu.Lock()
+					want := 0
+					for _, c := range clients {
+						if c.b.ID == b.ID {
+							want++
+						}
+					}
+					mu.Unlock()
+					dmu.Lock()
+					have := 0
+					for k := range done {
+						if strings.HasPrefix(k, b.ID+"|") {
+							have++
+						}
+					}
+					dmu.Unlock()
+					if have >= want {
+						return
+					}
+					st, body, _, _ := e.do(e.agPort, "GET", "/agent/pending", agentHdr(b.BackendUser, b.ID, ""), nil, 3*time.Second)
+					var ids []string
+					if st == 200 {
+						json.Unmarshal(body, &ids)
+					}
+					var iw sync.WaitGroup
+					for _, id := range ids {
+						dmu.Lock()
+						seen := done[b.ID+"|"+id]
+						if !seen {
+							done[b.ID+"|"+id] = true
+						}
+						dmu.Unlock()
+						if seen {
+							continue
+						}
+						iw.Add(1)
+						go func(id string) {
+							defer iw.Done()
+							st, fetched, _, _ := e.do(e.agPort, "GET", "/agent/request", agentHdr(b.BackendUser, b.ID, id), nil, 0)
+							m, target, fb, ok := parseStoredRequest(fetched)
+							same := st == 200 && ok && m == "POST" && target == "/cc/"+id && bytes.Equal(fb, pattern(id, len(fb)))
+							hx.Emit("AgentFetched", "b", b.ID, "r", id, "same", same)
+							// the "backend" answers what it was sent: the token of the fetched request
+							tok := strings.TrimPrefix(target, "/cc/")
+							if d := rng.Intn(5); d > 0 {
+								time.Sleep(time.Duration(d) * time.Millisecond)
+							}
+							hx.Emit("RespondBegin", "b", b.ID, "r", id)
+							text := "answer-for-" + tok
+							e.do(e.agPort, "POST", "/agent/response", agentHdr(b.BackendUser, b.ID, id),
+								[]byte(fmt.Sprintf("HTTP/1.1 200 OK\r\nContent-Length: %d\r\nCache-Control: no-store\r\n\r\n%s", len(text), text)), 0)
+							hx.Emit("RespondEnd", "b", b.ID, "r", id)
+						}(id)
+					}
+					iw.Wait()
+				}
+			}(b)
+		}
+		// collect the clients' answers
+		for _, c := range clients {
+			select {
+			case r := <-c.ch:
+				tok := strings.TrimPrefix(string(r.body), "answer-for-")
+				if r.status != 200 {
+					tok = fmt.Sprintf("status-%d", r.status)
+				}
+				hx.Emit("ClientGot", "r", c.rid, "tok", tok, "status", r.status)
+			case <-time.After(55 * time.Second):
+				hx.Emit("ClientGot", "r", c.rid, "tok", "no-answer", "status", 0)
+			}
+		}
+		wg.Wait()
+		time.Sleep(20 * time.Millisecond)
+		hx.Emit("RelayFinal")
+		e.ae.OnStore = nil
+		res.Case(fmt.Sprintf("concurrent:round%d", round), map[string]interface{}{"clients": perRound, "backends": len(bs)})
+	}
+}
